@@ -7,6 +7,29 @@
 (***************************************************************************)
 EXTENDS BebopWire
 
+-----------------------------------------------------------------------------
+(* C12: shapes for which the pinned generator emits code that does not      *)
+(* compile.  Predicates over the field type and its context only.           *)
+RECURSIVE ContainsArrayOfEnum(_, _)
+ContainsArrayOfEnum(S, t) ==
+  CASE t.k = "p" -> FALSE
+    [] t.k = "a" -> (t.e.k = "r" /\ Def(S, t.e.n).kind = "enum") \/ ContainsArrayOfEnum(S, t.e)
+    [] t.k = "m" -> ContainsArrayOfEnum(S, t.v)
+    [] t.k = "r" -> FALSE
+
+IsContainer(t) == t.k \in {"a", "m"}
+ElemOf(t) == IF t.k = "a" THEN t.e ELSE t.v
+NestedContainer(t) == IsContainer(t) /\ IsContainer(ElemOf(t))
+
+\* ctx in which the shape is (also) a message field: DecodeBebop of messages
+MessageLike(ctx) == ctx \in {"message", "depmsg", "union"}
+
+AsIsUncompilableS(Devs, S, ft, ctx) ==
+  IF "uncompilable:array_of_enum" \in Devs /\ ContainsArrayOfEnum(S, ft) THEN "uncompilable:array_of_enum"
+  ELSE IF "uncompilable:msg_nested_container" \in Devs /\ MessageLike(ctx) /\ NestedContainer(ft)
+       THEN "uncompilable:msg_nested_container"
+  ELSE ""
+
 \* name of the deviation that explains a failed encoder event, "" if none
 AsIsExplainsEnc(Devs, S, t, c, e) == ""
 
